@@ -24,6 +24,8 @@
  *   o=<n>:<act>              rule for the n-th open of the script
  *   c=<n>:<act>              rule for the n-th getcwd call
  *   kill=<seq>               exit_group(137) when event <seq> is reached
+ *   clock=<sec>[:<step_ms>]  clock_gettime/gettimeofday/time return <sec> + step_ms (default 1) per call
+ *   pid=<n>                  getpid returns <n>
  * Actions:
  *   short:<k>        transfer at most k bytes (k>=1)
  *   eintr            fail this call with EINTR
@@ -36,7 +38,8 @@
  * Log record:  <seq> <kind> <fd> <req> <ret> <errno> <act> <hex-or-dash>\n
  *   kind: W write, R script read, r other read, O script open, o other open,
  *         C close of script fd, S stat of script, G getcwd, X getrandom,
- *         K kill
+ *         K kill, E getenv (data = name), T clock read, P getpid,
+ *         o open of another file (data = path)
  */
 #define _GNU_SOURCE
 #include <dlfcn.h>
@@ -71,6 +74,7 @@ struct rule {
 };
 
 static int g_init = 0;
+static int g_main_started = 0; /* set at the first getcwd: seed's first action in main */
 static int g_logfd = -1;
 static unsigned long g_seq = 0;
 static long g_kill = -1;
@@ -107,6 +111,8 @@ static unsigned char g_is_script[MAX_FDS];
 static unsigned char *g_vbuf = NULL; static long g_vlen = 0;
 static long g_vpos[MAX_FDS];
 
+static long g_clock = -1; static long g_clock_calls = 0; static long g_clock_step_ms = 1;
+static long g_pid = -1;
 static long g_heap = 0;
 static void *g_heap_leak = NULL;
 
@@ -168,10 +174,20 @@ static void parse_action(const char **pp, struct rule *r) {
     *pp = p;
 }
 
+extern char **environ;
+static char *env_lookup(const char *name) {
+    if (!name || !environ) return NULL;
+    size_t n = strlen(name);
+    for (char **e = environ; *e; e++) {
+        if (strncmp(*e, name, n) == 0 && (*e)[n] == '=') return *e + n + 1;
+    }
+    return NULL;
+}
+
 static void plan_init(void) {
     if (g_init) return;
     g_init = 1;
-    const char *p = getenv("SEEDSIM_PLAN");
+    const char *p = env_lookup("SEEDSIM_PLAN");
     if (!p) return;
     while (*p) {
         if (starts(p, "log=")) { p += 4; g_logfd = (int)parse_long(&p); }
@@ -195,6 +211,8 @@ static void plan_init(void) {
             g_flip_len = parse_hex(&p, g_flip_bytes, (int)sizeof g_flip_bytes); g_virtual = 1;
         }
         else if (starts(p, "kill=")) { p += 5; g_kill = parse_long(&p); }
+        else if (starts(p, "clock=")) { p += 6; g_clock = parse_long(&p); if (*p == ':') { p++; g_clock_step_ms = parse_long(&p); if (g_clock_step_ms < 0) g_clock_step_ms = 1; } }
+        else if (starts(p, "pid=")) { p += 4; g_pid = parse_long(&p); }
         else if (starts(p, "w=") && g_nw < MAX_RULES) {
             p += 2; struct rule *r = &g_w[g_nw++]; memset(r, 0, sizeof *r);
             r->fd = (int)parse_long(&p); if (*p == ':') p++;
@@ -447,6 +465,8 @@ static int do_open(int dirfd, const char *path, int flags, mode_t mode) {
             if (g_virtual) load_virtual((int)fd);
         }
         log_event('O', (int)fd, 0, fd, e, "-", NULL, 0);
+    } else if (g_main_started && path) {
+        log_event('o', (int)fd, 0, fd, e, "-", (const unsigned char *)path, (long)strlen(path));
     }
     errno = e;
     return (int)fd;
@@ -595,6 +615,8 @@ int statx(int dirfd, const char *path, int flags, unsigned int mask, struct stat
     int e = r < 0 ? errno : 0;
     int script = 0;
     if (path[0] == 0 && (flags & AT_EMPTY_PATH) && dirfd >= 0 && dirfd < MAX_FDS && g_is_script[dirfd]) script = 1;
+    if (!script && g_main_started && path[0] != 0)
+        log_event('s', -1, 0, r, e, "-", (const unsigned char *)path, (long)strlen(path));
     if (script) {
         if (r == 0 && g_hint >= 0) {
             /* stx_size lives at byte offset 40 of struct statx */
@@ -639,6 +661,7 @@ off_t lseek64(int fd, off_t off, int whence) { return lseek(fd, off, whence); }
 
 char *getcwd(char *buf, size_t size) {
     plan_init();
+    g_main_started = 1;
     maybe_kill();
     long idx = g_ccount++;
     struct rule *r = find_rule(g_c, g_nc, 0, idx, 0);
@@ -686,4 +709,80 @@ ssize_t getrandom(void *buf, size_t len, unsigned int flags) {
     for (size_t i = 0; i < len; i++) o[i] = g_rand[(g_rand_pos++) % (unsigned long)g_rand_len];
     log_event('X', -1, (long)len, (long)len, 0, "plan", NULL, 0);
     return (ssize_t)len;
+}
+
+/* ----------------------------------------------- environment, clock, pid */
+
+char *getenv(const char *name) {
+    plan_init();
+    char *v = env_lookup(name);
+    if (g_main_started && strncmp(name, "SEEDSIM_", 8) != 0)
+        log_event('E', -1, 0, v ? 1 : 0, 0, "-", (const unsigned char *)name, (long)strlen(name));
+    return v;
+}
+char *secure_getenv(const char *name) { return getenv(name); }
+
+#include <time.h>
+#include <sys/time.h>
+
+int clock_gettime(clockid_t clk, struct timespec *ts) {
+    plan_init();
+    if (g_clock < 0 || !g_main_started) return (int)syscall(SYS_clock_gettime, clk, ts);
+    long long ms = (long long)(g_clock_calls++) * g_clock_step_ms;
+    ts->tv_sec = g_clock + (long)(ms / 1000); ts->tv_nsec = (long)(ms % 1000) * 1000000L;
+    log_event('T', (int)clk, 0, 0, 0, "plan", NULL, 0);
+    return 0;
+}
+
+int gettimeofday(struct timeval *tv, void *tz) {
+    plan_init();
+    (void)tz;
+    if (g_clock < 0 || !g_main_started) return (int)syscall(SYS_gettimeofday, tv, tz);
+    long long ms = (long long)(g_clock_calls++) * g_clock_step_ms;
+    tv->tv_sec = g_clock + (long)(ms / 1000); tv->tv_usec = (long)(ms % 1000) * 1000L;
+    log_event('T', -1, 0, 0, 0, "plan", NULL, 0);
+    return 0;
+}
+
+time_t time(time_t *t) {
+    plan_init();
+    if (g_clock < 0 || !g_main_started) { time_t r = (time_t)syscall(SYS_time, t); return r; }
+    long long ms = (long long)(g_clock_calls++) * g_clock_step_ms;
+    time_t r = (time_t)(g_clock + (long)(ms / 1000));
+    if (t) *t = r;
+    log_event('T', -1, 0, 0, 0, "plan", NULL, 0);
+    return r;
+}
+
+pid_t getpid(void) {
+    plan_init();
+    if (g_pid < 0 || !g_main_started) return (pid_t)syscall(SYS_getpid);
+    log_event('P', -1, 0, g_pid, 0, "plan", NULL, 0);
+    return (pid_t)g_pid;
+}
+
+/* existence probes of other files: logged so that the simulator can create them */
+int stat(const char *path, struct stat *st) {
+    plan_init();
+    long r = syscall(SYS_newfstatat, AT_FDCWD, path, st, 0);
+    int e = r < 0 ? errno : 0;
+    if (g_main_started) log_event('s', -1, 0, r, e, "-", (const unsigned char *)path, (long)strlen(path));
+    errno = e;
+    return (int)r;
+}
+int lstat(const char *path, struct stat *st) {
+    plan_init();
+    long r = syscall(SYS_newfstatat, AT_FDCWD, path, st, AT_SYMLINK_NOFOLLOW);
+    int e = r < 0 ? errno : 0;
+    if (g_main_started) log_event('s', -1, 0, r, e, "-", (const unsigned char *)path, (long)strlen(path));
+    errno = e;
+    return (int)r;
+}
+int access(const char *path, int mode) {
+    plan_init();
+    long r = syscall(SYS_access, path, mode);
+    int e = r < 0 ? errno : 0;
+    if (g_main_started) log_event('s', -1, 0, r, e, "-", (const unsigned char *)path, (long)strlen(path));
+    errno = e;
+    return (int)r;
 }
